@@ -16,8 +16,10 @@
 //   req <addr> <mode> <head> <bodyhex|->   raw request from 127.0.0.<addr>.
 //        head: segments joined by '+', each hex bytes or $name (manifest URI of mk/put/accepted STORE sN)
 //        mode: full  = send head+body, half-close, read to EOF
-//              early = send head only, wait (<= 2 s) for a response; body sent only if none came
-//        -> <STATUS> <CODE> [size= ttl=] [payload=] [early=] | st= mf= files= stop= ts= run=
+//              early = send the head only and half-close: a daemon that refuses an oversized PAYLOAD-LENGTH
+//                      before reading the body answers ERR_CONTROL_PAYLOAD_TOO_LARGE, one that first tries to read
+//                      the body runs into EOF (ERR_CONTROL_PAYLOAD_TRUNCATED) -- no timing involved
+//        -> <STATUS> <CODE> [size= ttl=] [payload=] | st= mf= files= stop= ts= run=
 //   cli <tokhex|-> <CMD> <sel> [KEY=hexvalue ...] [payload=<hex>]   real ControlClient::send
 //        sel: * or KEY,KEY (printed subset)      -> ok=<0|1> n=<fields> F=K=hex;.. P=<none|len:hex16>
 //   list <tokhex|->        real client LIST + the CLI's print_list_response -> out=<lines joined by |> chunks=<n>
@@ -294,25 +296,10 @@ std::string do_req(int addr, const std::string& mode, const std::string& head_sp
     const int fd = connect_from(addr);
     if (fd < 0) return "connect-failed";
     std::string raw;
-    std::string early;
-    if (mode == "early") {
-        write_all(fd, head);
-        pollfd p{fd, POLLIN, 0};
-        const int rc = ::poll(&p, 1, 2000);
-        if (rc > 0) {
-            early = " early=1";
-        } else {
-            early = " early=0";
-            write_all(fd, body);
-        }
-        ::shutdown(fd, SHUT_WR);
-        raw = read_to_eof(fd);
-    } else {
-        write_all(fd, head);
-        write_all(fd, body);
-        ::shutdown(fd, SHUT_WR);
-        raw = read_to_eof(fd);
-    }
+    write_all(fd, head);
+    if (mode != "early") write_all(fd, body);   // early: the body is withheld altogether
+    ::shutdown(fd, SHUT_WR);
+    raw = read_to_eof(fd);
     ::close(fd);
     const auto r = parse_raw(raw);
     std::string code = "-";
@@ -332,7 +319,6 @@ std::string do_req(int addr, const std::string& mode, const std::string& head_sp
                    ? " payload=" + short_digest(reinterpret_cast<const std::uint8_t*>(r.payload.data()), r.payload.size())
                    : std::string(" payload=none");
     }
-    out += early;
     return out + " | " + effects();
 }
 
